@@ -19,7 +19,7 @@ PROPERTY = 'C13'
 BOUNDS = {
     'quick': 'T in {2,3}, 4 atoms (Si, Si, S, Li): per-step displacements any reals strictly inside (-1/2,1/2), base positions any reals '
              'in [0,1), rigid drift steps any reals in (-1/4,1/4); reference selections: fixed as str/list, floating as str/list, none; '
-             'species as Species and as Element objects',
+             'species as Species, as Species with oxidation states (Li+, S2-, Si4+) and as Element objects',
     'thorough': 'T in {2,3,4}; additionally 2 pool lattices and 5 atoms (two floating)',
 }
 OUTSIDE = ['floating-point rounding', 'trajectories whose raw or corrected steps reach the half cell (minimum image ambiguous)']
@@ -38,8 +38,9 @@ OTHER_FIXED = [0, 1, 2]  # everything that is not 'Li'
 
 def _mk(gt, kind, d, b, M):
     from pymatgen.core import Element, Species
-    cls = Species if kind == 'Species' else Element
-    return gt.Trajectory(species=[cls(s) for s in SPECIES], coords=d, lattice=M, time_step=1e-15,
+    OX = {'Li': 1, 'S': -2, 'Si': 4}
+    mk = {'Species': Species, 'Element': Element, 'SpeciesOx': lambda s: Species(s, OX[s])}[kind]   # SpeciesOx: 'Li+', 'S2-', 'Si4+'
+    return gt.Trajectory(species=[mk(s) for s in SPECIES], coords=d, lattice=M, time_step=1e-15,
                          metadata={'temperature': 300, 'tag': 'x'}, coords_are_displacement=True, base_positions=b)
 
 
@@ -240,10 +241,12 @@ def jobs(tier, seed):
     if tier == 'quick':
         cfg = [(2, s, 'Species', 'cubic5') for s in sels] + [(3, 'fixed_str', 'Species', 'tric'), (2, 'floating_str', 'Element', 'cubic5'),
                                                              (2, 'fixed_str', 'Element', 'cubic5'), (2, 'floating_Si_str', 'Species', 'cubic5'),
-                                                             (2, 'floating_Si_list', 'Element', 'cubic5')]
+                                                             (2, 'floating_Si_list', 'Element', 'cubic5'),
+                                                             (2, 'floating_str', 'SpeciesOx', 'cubic5'), (2, 'fixed_list', 'SpeciesOx', 'cubic5')]
     else:
         cfg = [(T, s, k, lat) for T in (2, 3, 4) for s in sels + ['fixed_all_other', 'floating_Si_str', 'floating_Si_list'] for k in ('Species', 'Element')
-               for lat in (('cubic5',) if T > 2 else ('cubic5', 'tric'))]
+               for lat in (('cubic5',) if T > 2 else ('cubic5', 'tric'))] + \
+              [(2, s, 'SpeciesOx', 'cubic5') for s in sels + ['fixed_all_other', 'floating_Si_str', 'floating_Si_list']]
     for T, s, k, lat in cfg:
         js.append(dict(name=f'drift_T{T}_{s}_{k}_{lat}', fn='drift_job', params=dict(T=T, sel=s, species_kind=k, lattice=lat)))
     return js
